@@ -37,7 +37,14 @@ Verbs == {"load", "house", "init", "server", "logger", "log", "loggee", "framer"
 \* words that are none of the above: names, numbers in every documented form, paths, strings, debris
 \* LongWord: 32 word characters and a character no path may hold (a path pattern that backtracks takes 2^32 steps on it)
 LongWord == "aaaaaaaaaaaaaaaaaaaaaaaaaaaaaaaa!"
-Garbage == {LongWord, "zz9", "-3", "1.5", "0x1f", "2j", "inf", ".x.y", "a..b", "$%", "\"q s\"", "'s q'", "7up", "_u", "me", "all",
+\* numbers at the edge of every documented numeric form: infinities and not-a-number in their spellings, exponents beyond
+\* the float range, complex numbers (also with an infinite part), integers and fractions of 400 digits, a 300 digit hex
+BigInt == "9999999999999999999999999999999999999999999999999999999999999999999999999999999999999999999999999999999999999999999999999999999999999999999999999999999999999999999999999999999999999999999999999999999999999999999999999999999999999999999999999999999999999999999999999999999999999999999999999999999999999999999999999999999999999999999999999999999999999999999999999999999999999999999999999999999999999999"
+BigFrac == "0.3333333333333333333333333333333333333333333333333333333333333333333333333333333333333333333333333333333333333333333333333333333333333333333333333333333333333333333333333333333333333333333333333333333333333333333333333333333333333333333333333333333333333333333333333333333333333333333333333333333333333333333333333333333333333333333333333333333333333333333333333333333333333333333333333333333333333333"
+BigHex == "0xffffffffffffffffffffffffffffffffffffffffffffffffffffffffffffffffffffffffffffffffffffffffffffffffffffffffffffffffffffffffffffffffffffffffffffffffffffffffffffffffffffffffffffffffffffffffffffffffffffffffffffffffffffffffffffffffffffffffffffffffffffffffffffffffffffffffffffffffffffffffffffffffffffffffffff"
+Extremes == {"inf", "-inf", "Infinity", "-Infinity", "nan", "1e999", "-1e999", "1e-999", "3j", "infj", "1+infj", "nanj",
+             BigInt, "-" \o BigInt, BigFrac, BigHex, "-0.0", "0"}
+Garbage == Extremes \cup {LongWord, "zz9", "-3", "1.5", "0x1f", "2j", "inf", ".x.y", "a..b", "$%", "\"q s\"", "'s q'", "7up", "_u", "me", "all",
             "value", "framer", "main", "45N30.5", "1x2y", "goal", "elapsed", "mine", "frame", "done", "updated", "aux"}
 
 \* ------------------------------------------------------------------ grammar
@@ -130,6 +137,15 @@ Faulty == { <<"go", "nowhere">>, <<"aux", "nobody">>,
             <<"go", "f2", "if", ".s.a", "==", LongWord>>, <<"do", "vfrec", "via", LongWord>>, <<"do", "vfrec", "per", "ia", LongWord>>,
             <<"bid", "stop", "me", "at", LongWord>>, <<"aux", "mo", "as", "cl9", "via", LongWord>> }
 \* (.s.v holds only `value`, .s.w holds x and y; no valid command form touches them)
+\* every numeric operand position with an extreme number: the command may build or be refused, nothing else
+ExtremeBody == UNION {{ <<"repeat", x>>, <<"timeout", x>>, <<"bid", "stop", "me", "at", x>>, <<"go", "f2", "if", ".s.a", "==", "1", "+-", x>>,
+                        <<"go", "f2", "if", ".s.a", "==", x>>, <<"go", "f2", "if", "elapsed", ">=", x>>, <<"go", "f2", "if", "recurred", ">=", x>>,
+                        <<"put", x, "into", ".s.h">>, <<"put", "x", x, "y", x, "into", ".s.k">>, <<"inc", ".s.a", "with", x>>,
+                        <<"set", ".s.g", "with", x>>, <<"set", "elapsed", "with", x>>, <<"set", "recurred", "to", x>>,
+                        <<"do", "vfrec", "with", "tag", x>>, <<"do", "vfrec", "cum", "ca", x>> } : x \in Extremes}
+ExtremeTop == UNION {{ <<"framer", "zf", "be", "active", "at", x>>, <<"server", "zs", "at", x>>, <<"logger", "zl", "at", x>>,
+                       <<"logger", "zl", "flush", x>>, <<"logger", "zl", "keep", x>>, <<"logger", "zl", "cycle", x>>,
+                       <<"logger", "zl", "size", x>>, <<"init", ".s.z", "with", "value", x>> } : x \in Extremes}
 \* commands that may not be repeated, written once more at the end of the script
 FaultyTop == { <<"house", "h1">>, <<"server", "sv">>, <<"logger", "lg">>, <<"framer", "fr">>, <<"framer", "lg">>, <<"log", "l1">> }
 
@@ -160,47 +176,54 @@ VARIABLES base,     \* "grammar" or the index of an example plan
           log,      \* the mutations applied (for reports)
           faulty,   \* an unresolvable command form was added
           verb,     \* verb picked for the next body command, or ""
+          loose,    \* a command with an extreme number was added: it may build or be refused
           fin
-vars == <<base, script, want, nadd, nmut, at, log, faulty, verb, fin>>
+vars == <<base, script, want, nadd, nmut, at, log, faulty, verb, loose, fin>>
 
 NPlans == Len(Input.plans)
 Init == /\ base \in (IF Bases = "plans" THEN {} ELSE {0}) \cup (IF Bases = "grammar" THEN {} ELSE 1..NPlans)
         /\ script = IF base = 0 THEN SkeletonHead \o SkeletonTail ELSE Input.plans[base]
         /\ want \in [add : IF base = 0 THEN 0..MaxAdd ELSE {0}, mut : 0..MaxMut]
-        /\ nadd = 0 /\ nmut = 0 /\ at = <<0, 0>> /\ log = <<>> /\ faulty = FALSE /\ verb = "" /\ fin = FALSE
+        /\ nadd = 0 /\ nmut = 0 /\ at = <<0, 0>> /\ log = <<>> /\ faulty = FALSE /\ verb = "" /\ loose = FALSE /\ fin = FALSE
 
 InsertCmd(s, i, c) == SubSeq(s, 1, i - 1) \o <<c>> \o SubSeq(s, i, Len(s))
 \* a body command is chosen in two steps (verb, then one of its forms) so that every verb is written equally often
 PickVerb == /\ ~fin /\ nadd < want.add /\ verb = ""
             /\ \E v \in {c[1] : c \in Body} : verb' = v
-            /\ UNCHANGED <<base, script, want, nadd, nmut, at, log, faulty, fin>>
+            /\ UNCHANGED <<base, script, want, nadd, nmut, at, log, faulty, loose, fin>>
 AddCmd == /\ ~fin /\ nadd < want.add /\ verb # ""
           /\ \E c \in {b \in Body : b[1] = verb} : script' = InsertCmd(script, Len(SkeletonHead) + nadd + 1, c)
           /\ nadd' = nadd + 1 /\ verb' = ""
-          /\ UNCHANGED <<base, want, nmut, at, log, fin, faulty>>
+          /\ UNCHANGED <<base, want, nmut, at, log, fin, faulty, loose>>
 
 \* one unresolvable command form instead of a valid one
 AddFaulty == /\ ~fin /\ nadd < want.add /\ ~faulty /\ verb = ""
              /\ \E c \in Faulty : script' = InsertCmd(script, Len(SkeletonHead) + nadd + 1, c)
              /\ nadd' = nadd + 1 /\ faulty' = TRUE
-             /\ UNCHANGED <<base, want, nmut, at, log, fin, verb>>
+             /\ UNCHANGED <<base, want, nmut, at, log, fin, verb, loose>>
 
 AddFaultyTop == /\ ~fin /\ nadd < want.add /\ ~faulty /\ verb = ""
                 /\ \E c \in FaultyTop : script' = Append(script, c)
                 /\ nadd' = nadd + 1 /\ faulty' = TRUE
-                /\ UNCHANGED <<base, want, nmut, at, log, fin, verb>>
+                /\ UNCHANGED <<base, want, nmut, at, log, fin, verb, loose>>
+
+AddExtreme == /\ ~fin /\ nadd < want.add /\ ~loose /\ ~faulty /\ verb = ""
+              /\ \/ \E c \in ExtremeBody : script' = InsertCmd(script, Len(SkeletonHead) + nadd + 1, c)
+                 \/ \E c \in ExtremeTop : script' = Append(script, c)
+              /\ nadd' = nadd + 1 /\ loose' = TRUE
+              /\ UNCHANGED <<base, want, nmut, at, log, fin, verb, faulty>>
 
 Adding == nadd < want.add
 Pick == /\ ~fin /\ ~Adding /\ nmut < want.mut /\ at = <<0, 0>>
         /\ \E i \in 1..Len(script) : \E j \in 1..Len(script[i]) : at' = <<i, j>>
-        /\ UNCHANGED <<base, script, want, nadd, nmut, log, faulty, verb, fin>>
+        /\ UNCHANGED <<base, script, want, nadd, nmut, log, faulty, verb, loose, fin>>
 
 Cmd == script[at[1]]
 J == at[2]
 Apply(kind, new) == /\ script' = [script EXCEPT ![at[1]] = new]
                     /\ nmut' = nmut + 1 /\ at' = <<0, 0>>
                     /\ log' = Append(log, <<kind, at[1], at[2]>>)
-                    /\ UNCHANGED <<base, want, nadd, faulty, verb, fin>>
+                    /\ UNCHANGED <<base, want, nadd, faulty, verb, loose, fin>>
 Picked == ~fin /\ at # <<0, 0>>
 Without(q, j) == SubSeq(q, 1, j - 1) \o SubSeq(q, j + 1, Len(q))
 Delete == Picked /\ Len(Cmd) > 1 /\ Apply("delete", Without(Cmd, J))
@@ -215,16 +238,16 @@ InsertConnective == Picked /\ \E w \in Connectives : Apply("insert", SubSeq(Cmd,
 \* ------------------------------------------------------------------ what building may answer
 ScriptErrors == {"refused", "ParseError", "ResolveError", "ValueError"}
 StartsWithDebris(s) == \E i \in 1..Len(s) : s[i][1] \notin Verbs \cup Reserved
-Allowed == IF nmut = 0 THEN (IF faulty THEN ScriptErrors ELSE {"built"})
+Allowed == IF nmut = 0 THEN (IF loose THEN {"built"} \cup ScriptErrors ELSE IF faulty THEN ScriptErrors ELSE {"built"})
            ELSE IF StartsWithDebris(script) THEN {"refused", "ParseError", "ValueError"}
            ELSE {"built"} \cup ScriptErrors
 
 Finish == /\ ~fin /\ ~Adding /\ nmut = want.mut /\ at = <<0, 0>>
           /\ fin' = TRUE
-          /\ PrintT(ToJson([base |-> base, nmut |-> nmut, log |-> log, script |-> script, allowed |-> Allowed, faulty |-> faulty]))
-          /\ UNCHANGED <<base, script, want, nadd, nmut, at, log, faulty, verb>>
+          /\ PrintT(ToJson([base |-> base, nmut |-> nmut, log |-> log, script |-> script, allowed |-> Allowed, faulty |-> faulty, loose |-> loose]))
+          /\ UNCHANGED <<base, script, want, nadd, nmut, at, log, faulty, verb, loose>>
 
-Next == PickVerb \/ AddCmd \/ AddFaulty \/ AddFaultyTop \/ Pick \/ Delete \/ Duplicate \/ Swap \/ ReplaceReserved \/ ReplaceGarbage \/ Truncate \/ InsertConnective \/ Finish
+Next == PickVerb \/ AddCmd \/ AddFaulty \/ AddFaultyTop \/ AddExtreme \/ Pick \/ Delete \/ Duplicate \/ Swap \/ ReplaceReserved \/ ReplaceGarbage \/ Truncate \/ InsertConnective \/ Finish
 Spec == Init /\ [][Next]_vars
 
 \* ------------------------------------------------------------------ properties of the model
@@ -234,6 +257,6 @@ TypeOK == /\ nadd \in 0..MaxAdd /\ nmut \in 0..MaxMut
 \* a mutation changes exactly one command
 OneCommand == [][nmut' = nmut + 1 => Cardinality({i \in 1..Len(script) : script'[i] # script[i]}) <= 1 /\ Len(script') = Len(script)]_vars
 \* every command form of the grammar starts with a verb
-GrammarOK == \A c \in Body \cup Faulty \cup FaultyTop : c[1] \in Verbs
+GrammarOK == \A c \in Body \cup Faulty \cup FaultyTop \cup ExtremeBody \cup ExtremeTop : c[1] \in Verbs
 ASSUME GrammarOK
 =============================================================================
